@@ -240,6 +240,32 @@ func TestC10(t *testing.T) {
 								if !used {
 									continue // interface of a cut shortcut hop field, not traversed
 								}
+								trCheck := func(o netsim.Outcome) func(b []byte) string {
+									return func(b []byte) string {
+										if len(b) < 20 || binary.BigEndian.Uint16(b) != 40001 || binary.BigEndian.Uint16(b[2:]) != 7 ||
+											binary.BigEndian.Uint64(b[4:]) != uint64(tp.ASes[wantAS].IA) || binary.BigEndian.Uint64(b[12:]) != uint64(ifID) {
+											return fmt.Sprintf("traceroute reply body %x, want id 40001 seq 7 IA %s interface %d", b[:min(20, len(b))], tp.ASes[wantAS].IA, ifID)
+										}
+										st := o.Steps[o.SCMPStep]
+										if tp.ASes[wantAS].BROf[ifID] != st.BR {
+											return fmt.Sprintf("answered by border router %d, interface %d is owned by %d", st.BR, ifID, tp.ASes[wantAS].BROf[ifID])
+										}
+										return ""
+									}
+								}
+								// the flagged interface is an egress interface of the path and its link is down: the traceroute request
+								// is still answered by the router owning the interface (the statement makes no exception)
+								for _, c := range base.Crossings {
+									if c.From != wantAS || c.FromIf != ifID {
+										continue
+									}
+									rtd := n.Routers[c.From][tp.ASes[c.From].BROf[c.FromIf]]
+									origL := rtd.VerifLink(c.FromIf)
+									rtd.VerifSetLink(c.FromIf, downLink{origL})
+									od := n.Inject(tam, src, firstBR(n, src, p))
+									rtd.VerifSetLink(c.FromIf, origL)
+									judge(n, tp, fmt.Sprintf("traceroute+ifdown:%s|hop=%d|flag=%d", pkey, h, flag), od, src, wantAS, 131, 40001, trCheck(od))
+								}
 								judge(n, tp, fmt.Sprintf("traceroute:%s|hop=%d|flag=%d", pkey, h, flag), o, src, wantAS, 131, 40001, func(b []byte) string {
 									if len(b) < 20 || binary.BigEndian.Uint16(b) != 40001 || binary.BigEndian.Uint16(b[2:]) != 7 ||
 										binary.BigEndian.Uint64(b[4:]) != uint64(tp.ASes[wantAS].IA) || binary.BigEndian.Uint64(b[12:]) != uint64(ifID) {
